@@ -4,6 +4,7 @@ package c05
 import (
 	"context"
 	"fmt"
+	"reflect"
 	"regexp"
 	"runtime/debug"
 	"sort"
@@ -29,7 +30,7 @@ const (
 
 func TestMain(m *testing.M) {
 	evid.Main(m, "C05", "exploration",
-		"ASTs from (g4) parser on random derivations of Cypher.g4, (corpus) parser on every shipped query text, (mut) parser on 1-2 token-level mutations of corpus queries incl. literal->$parameter replacement with fresh names and with names of bound variables, (cy) parser on typed generated read queries with parameters, (builder/bmodel) builder programs replayed through package query's constructors (+ cypher model constructors) applied to query.NewBuilder(nil).Build; x parameter maps (nil map, values of every supported Go kind: all int widths, floats, bool, nil, string, time, duration, graph.ID, kinds, typed slices, []any, map[string]any, *graph.Properties; unsupported: structs, pointers, chan, func, typed nils, nested/odd maps, NaN/Inf; names that occur / do not occur in the query / equal bound variables) x kind mapper (DAWGS's InMemoryKindMapper knowing all / not all / none of the query's kinds). Per case: 5 repeated Translate+Translated calls, a translation of an independent reflection deep clone, 3 FromCypher calls, an interleaving A,B,A of two parameter maps that differ by marker suffixes, and (sampled in quick, always in thorough) 8 goroutines x 2 calls on the shared AST/map/mapper; reflection snapshots of AST and parameter map before/after every phase. Non-trivial = translation succeeded with >= 1 output parameter or >= 2 CTE frames, or returned an error for a parsed/built AST (classes outcome=ok / outcome=error); distinct = the whole case.",
+		"ASTs from (g4) parser on random derivations of Cypher.g4, (corpus) parser on every shipped query text, (mut) parser on 1-2 token-level mutations of corpus queries incl. literal->$parameter replacement with fresh names and with names of bound variables, (cy) parser on typed generated read queries with parameters, (builder/bmodel) builder programs replayed through package query's constructors (+ cypher model constructors) applied to query.NewBuilder(nil).Build; x parameter maps (nil map, values of every supported Go kind: all int widths, floats, bool, nil, string, time, duration, graph.ID, kinds, typed slices, []any, map[string]any, *graph.Properties; unsupported: structs, pointers, chan, func, typed nils, nested/odd maps, NaN/Inf; names that occur / do not occur in the query / equal bound variables) x kind mapper (DAWGS's InMemoryKindMapper knowing all / not all / none of the query's kinds). Per case: an interleaving A,B,A of two inputs that differ only by marker suffixes in their string values (no marker of one call may show up in another call's result; an earlier result may not change), 5 repeated Translate+Translated calls (byte-identical SQL, equal parameters, distinct result maps), a translation of an independent reflection deep clone of the AST, 3 FromCypher calls, and (sampled 1/4 in quick, always in thorough) 8 goroutines x 2 calls (Translate / FromCypher) on the shared AST, parameter map and kind mapper; address-level reflection snapshots of AST and parameter map are compared before/after every phase. Non-trivial = translation succeeded with >= 1 output parameter or >= 2 CTE frames, or returned an error for a parsed/built AST (classes outcome=ok / outcome=error); distinct = the whole case.",
 		"results are compared as SQL text + a type-annotated canonical dump of the parameter map (equal to reflect.DeepEqual except that NaN equals NaN and funcs/chans compare by type)",
 		"error texts are compared after replacing 0x… addresses",
 		"schedules are sampled: Go offers no scheduler control; the thorough tier runs the same cases under the race detector")
@@ -243,6 +244,7 @@ func buildMapper(c Case, m *mentions) (pgsql.KindMapper, int) {
 // one observation of the function under test
 
 type outcome struct {
+	raw    *xlate.Result
 	sql    string
 	params string
 	err    string
@@ -264,7 +266,7 @@ func observe(q *cypher.RegularQuery, params map[string]any, mapper pgsql.KindMap
 		}
 		return outcome{err: normErr(err)}
 	}
-	return outcome{sql: res.SQL, params: structure(res.Params), nparam: len(res.Params)}
+	return outcome{raw: &res, sql: res.SQL, params: structure(res.Params), nparam: len(res.Params)}
 }
 
 // xlateTranslate is xlate.TranslateWith with the graph id of the case.
@@ -391,6 +393,53 @@ func oracle(c Case) (evid.Info, error) {
 
 	w := newWatch(q, params)
 
+	// no state leaks from one call into another: A, B, A with parameter values that carry a marker.
+	// This phase comes first: a value remembered from the very first call for a query text must
+	// carry a marker to be recognised in later results.
+	qA, qB := q, q
+	if c.Prog != nil {
+		var sA, sB string
+		qA, sA = buildQuery(c, markA)
+		qB, sB = buildQuery(c, markB)
+		if sA != "" || sB != "" {
+			qA, qB = nil, nil
+		}
+	}
+	if qA != nil {
+		pA, pB := buildParams(c, markA), buildParams(c, markB)
+		wA, wB := newWatch(qA, pA), newWatch(qB, pB)
+		a1 := observe(qA, pA, mapper, c.GraphID)
+		b := observe(qB, pB, mapper, c.GraphID)
+		a2 := observe(qA, pA, mapper, c.GraphID)
+		if a1.panic || b.panic || a2.panic {
+			return info, fmt.Errorf("translate.Translate panicked on %s with marked parameters:\n%s%s%s", what, a1.err, b.err, a2.err)
+		}
+		if a1.raw != nil {
+			// results handed out earlier belong to the caller: later calls must not change them
+			if now := structure(a1.raw.Params); now != a1.params {
+				return info, fmt.Errorf("the parameters of an earlier result changed while later calls ran: %s\n    input: %s", firstDiff(a1.params, now), what)
+			}
+		}
+		if d := a1.differs(a2); d != "" {
+			return info, fmt.Errorf("the same call gave a different result after an intervening call with other parameter values: %s\n    input: %s", d, what)
+		}
+		if strings.Contains(b.sql+b.params+b.err, markA) {
+			return info, fmt.Errorf("a value given only to an earlier call (marker %q) appears in the result of a later call: sql=%s params=%s err=%s\n    input: %s", markA, b.sql, b.params, b.err, what)
+		}
+		if strings.Contains(a2.sql+a2.params+a2.err, markB) {
+			return info, fmt.Errorf("a value given only to an earlier call (marker %q) appears in the result of a later call: sql=%s params=%s err=%s\n    input: %s", markB, a2.sql, a2.params, a2.err, what)
+		}
+		if err := wA.check("translate.Translate"); err != nil {
+			return info, fmt.Errorf("%w\n    input: %s (marked A)", err, what)
+		}
+		if err := wB.check("translate.Translate"); err != nil {
+			return info, fmt.Errorf("%w\n    input: %s (marked B)", err, what)
+		}
+		if strings.Contains(a1.sql+a1.params, markA) {
+			info.Classes = append(info.Classes, "marker-reaches-output")
+		}
+	}
+
 	// (1)+(3) repeated calls
 	first := observe(q, params, mapper, c.GraphID)
 	if first.panic {
@@ -407,9 +456,24 @@ func oracle(c Case) (evid.Info, error) {
 		if d := first.differs(next); d != "" {
 			return info, fmt.Errorf("call %d of translate.Translate on the same AST and parameters gave a different result: %s\n    input: %s", i+1, d, what)
 		}
+		if first.raw != nil && next.raw != nil && first.raw.Params != nil &&
+			reflect.ValueOf(first.raw.Params).Pointer() == reflect.ValueOf(next.raw.Params).Pointer() {
+			// the later call wrote its parameters into the map it had handed out before
+			return info, fmt.Errorf("call 1 and call %d of translate.Translate returned the same parameter map object: a later call writes into an earlier result\n    input: %s", i+1, what)
+		}
 	}
 	if err := w.check("repeated translate.Translate"); err != nil {
 		return info, fmt.Errorf("%w\n    input: %s", err, what)
+	}
+
+	// results handed out earlier belong to the caller: later calls must not change them
+	if first.raw != nil {
+		if now := structure(first.raw.Params); now != first.params {
+			return info, fmt.Errorf("the parameters of an earlier result changed while later calls ran: %s\n    input: %s", firstDiff(first.params, now), what)
+		}
+		if sql, err := translate.Translated(first.raw.Raw); err != nil || sql != first.sql {
+			return info, fmt.Errorf("the statement of an earlier result changed while later calls ran (%v): %s\n    input: %s", err, firstDiff(first.sql, sql), what)
+		}
 	}
 
 	// a deep copy of the AST is the same input
@@ -439,45 +503,6 @@ func oracle(c Case) (evid.Info, error) {
 	}
 	if err := w.check("repeated translate.FromCypher"); err != nil {
 		return info, fmt.Errorf("%w\n    input: %s", err, what)
-	}
-
-	// no state leaks from one call into another: A, B, A with parameter values that carry a marker
-	qA, qB := q, q
-	if c.Prog != nil {
-		var sA, sB string
-		qA, sA = buildQuery(c, markA)
-		qB, sB = buildQuery(c, markB)
-		if sA != "" || sB != "" {
-			qA, qB = nil, nil
-		}
-	}
-	if qA != nil {
-		pA, pB := buildParams(c, markA), buildParams(c, markB)
-		wA, wB := newWatch(qA, pA), newWatch(qB, pB)
-		a1 := observe(qA, pA, mapper, c.GraphID)
-		b := observe(qB, pB, mapper, c.GraphID)
-		a2 := observe(qA, pA, mapper, c.GraphID)
-		if a1.panic || b.panic || a2.panic {
-			return info, fmt.Errorf("translate.Translate panicked on %s with marked parameters:\n%s%s%s", what, a1.err, b.err, a2.err)
-		}
-		if d := a1.differs(a2); d != "" {
-			return info, fmt.Errorf("the same call gave a different result after an intervening call with other parameter values: %s\n    input: %s", d, what)
-		}
-		if strings.Contains(b.sql+b.params+b.err, markA) {
-			return info, fmt.Errorf("a value given only to an earlier call (marker %q) appears in the result of a later call: sql=%s params=%s err=%s\n    input: %s", markA, b.sql, b.params, b.err, what)
-		}
-		if strings.Contains(a2.sql+a2.params+a2.err, markB) {
-			return info, fmt.Errorf("a value given only to an earlier call (marker %q) appears in the result of a later call: sql=%s params=%s err=%s\n    input: %s", markB, a2.sql, a2.params, a2.err, what)
-		}
-		if err := wA.check("translate.Translate"); err != nil {
-			return info, fmt.Errorf("%w\n    input: %s (marked A)", err, what)
-		}
-		if err := wB.check("translate.Translate"); err != nil {
-			return info, fmt.Errorf("%w\n    input: %s (marked B)", err, what)
-		}
-		if strings.Contains(a1.sql+a1.params, markA) {
-			info.Classes = append(info.Classes, "marker-reaches-output")
-		}
 	}
 
 	// (4) concurrent calls: shared AST, shared parameter map, one shared kind mapper
